@@ -262,7 +262,12 @@ pub fn build_package(opts: PackageInputs) -> Result<CoreUnit, CompilationError> 
 pub fn read_core(path: &Path) -> Result<CoreUnit, CompilationError> {
     let json = fs::read_to_string(path)
         .map_err(|err| compile_error(format!("failed to read {}: {}", path.display(), err)))?;
-    let unit: CoreUnit = serde_json::from_str(&json)
+    // Core IR nests one level per `let`, so an ordinary function body is deeper than
+    // serde_json's default recursion limit of 128; the limit only guards untrusted input.
+    let mut deserializer = serde_json::Deserializer::from_str(&json);
+    deserializer.disable_recursion_limit();
+    let unit: CoreUnit = serde::Deserialize::deserialize(&mut deserializer)
+        .and_then(|unit| deserializer.end().map(|()| unit))
         .map_err(|err| compile_error(format!("failed to parse {}: {}", path.display(), err)))?;
     if !unit.validate() {
         return Err(compile_error(format!(
